@@ -50,6 +50,14 @@ CHECKS["C04"] = (
     "3/C04",
 )
 
+CHECKS["C06"] = (
+    "fault_enumeration",
+    "deterministic simulation with crash-point enumeration: seeded histories, the save's real syscalls recorded at the libc boundary, every crash index x tear variant materialised and recovered by the real loader",
+    "For each generated save (index buckets via save_all/flush_*, residency DB, LRU checkpoint with/without bump and shutdown, disk-cache put) the mutating syscalls the code really issues are recorded by libc interposition; every crash index, every chosen prefix of an in-flight write (process death) and every tear variant of un-synced content (power loss: nothing/prefixes/zeros/stale) is materialised as a directory and recovered by a fresh real loader, which must succeed, show exactly S_old or S_new per object, and stay usable. Complete over crash points within each generated instance; the instances are sampled.",
+    "Trusted: the persistence models P and D (DESIGN.md 2.5) - D is a model of a journalling file system, not an observation; the recorder (checked against strace by the seam self-test); S_old for the index is what the real loader sees before the save.",
+    "3/C06",
+)
+
 PENDING = {}
 
 
